@@ -1,6 +1,8 @@
 #!/bin/bash
 # seed_detect.sh <seed-dir> <tier> <check ids...>: apply a seeded change to /repo, run the check(s), undo.
 SD=$1; TIER=$2; shift 2
+# never overlap with lib/run_all.sh (shared /repo working tree and harness build)
+if [ -z "$VERIF_LOCKED" ]; then exec env VERIF_LOCKED=1 flock /var/tmp/verif.lock "$0" "$SD" "$TIER" "$@"; fi
 cd /repo || exit 2
 git diff --quiet || { echo "repo dirty"; exit 2; }
 git apply "$SD/patch.diff" || { echo "apply failed"; exit 2; }
